@@ -3,7 +3,7 @@ partial-consumption points; after the queue drains the peer table equals the rep
 import itertools
 import random
 
-from .registry import bounded, replayer, region
+from .registry import bounded, replayer, region, harness_canary
 from .ribharness import Session, route, reported
 
 P = ['10.0.1.0/24', '10.0.2.0/24']
@@ -36,6 +36,21 @@ def run_sequence(seq):
     want, got = reported(s.rib), s.peer.table
     if want != got:
         return {'what': 'after the queue drained the peer table differs from the reported Adj-RIB-Out', 'input': {'ops': [list(o) for o in seq]}, 'reported': str(sorted(want.items())), 'peer': str(sorted(got.items())), 'log': [str(x) for x in s.peer.log][-12:]}
+    # and both equal the INTENDED table (fold of the operations, last write wins): a defect that corrupts the report
+    # and the wire together would otherwise go unnoticed
+    import socket
+
+    model = {}
+    for op in seq:
+        if op[0] == 'ann':
+            model[op[1]] = op[2]
+        elif op[0] == 'wd':
+            model.pop(op[1], None)
+        elif op[0] == 'clear':
+            model = {}
+    intended = {(1, 24, socket.inet_aton(P[k].split('/')[0])[:3]): ('192.0.2.1', med) for k, med in model.items()}
+    if got != intended:
+        return {'what': 'after the queue drained the peer does not hold the intended table (announces not since withdrawn, last attributes)', 'input': {'ops': [list(o) for o in seq]}, 'intended': str(sorted(intended.items())), 'peer': str(sorted(got.items())), 'reported': str(sorted(want.items()))}
     return None
 
 
@@ -94,3 +109,36 @@ def stale_bucket_region(failure):
             if len(sets) >= 2:
                 return True
     return False
+
+
+# ------------------------------------------------------------------------------------------------ harness canaries
+
+
+def _patched(obj, name, replacement, seq):
+    real = getattr(obj, name)
+    setattr(obj, name, replacement)
+    try:
+        return run_sequence(seq) is not None
+    finally:
+        setattr(obj, name, real)
+
+
+@harness_canary('C04', 'withdraw does not reach the wire')
+def _hc_lost_withdraw():
+    from exabgp.rib.outgoing import OutgoingRIB
+
+    real = OutgoingRIB._del_from_rib_impl
+
+    def drop(self, nlri, attrs, route_index):
+        self.update_cache_withdraw(nlri)  # the report forgets the route, nothing is queued for the peer
+
+    seq = (('ann', 0, 10), ('flush',), ('wd', 0, None))
+    return run_sequence(seq) is None and _patched(OutgoingRIB, '_del_from_rib_impl', drop, seq)
+
+
+@harness_canary('C04', 'withdrawn route stays in the report and on the wire')
+def _hc_consistent_corruption():
+    from exabgp.rib.outgoing import OutgoingRIB
+
+    seq = (('ann', 0, 10), ('flush',), ('wd', 0, None))
+    return _patched(OutgoingRIB, '_del_from_rib_impl', lambda self, nlri, attrs, route_index: None, seq)
